@@ -339,3 +339,146 @@ Example C09_view_hide_example :
     = Ok [0; 1; -1; 2]%Z /\
   display_order (dd (Some [])) (ByAnchor OPayload) [] false = Ok [0; 1; 2]%Z.
 Proof. cbv zeta. repeat split; vm_compute; reflexivity. Qed.
+
+(*BEGIN GenAgreeCollator_C09*)
+(* ------------------------------------------------------------------------------------ *)
+(* SOURCE TEXT of _BaseCollator._hidden_idxs, for each concrete collator class
+   (harness/translate/x_collator.py -> Gen/CollatorSrc.v, see the appendix of Props/C07.v): the set the
+   three `_display_order` / `payload_order` filters read is the model's [collator_hidden] - the empty
+   vectors if the dimension prunes, plus the dimension's hidden elements - and the public orders, where
+   the `if idx not in hidden_idxs` filter sits, are the model's display orders (whose visibility
+   theorems are above). *)
+From CC Require Proofs.GenAgreeCollatorAnchored Proofs.GenAgreeCollatorSbv.
+Section GenAgreeCollator_C09.   (* scopes and imports below end with the section *)
+Import Coq.Lists.List Coq.ZArith.ZArith CC.Base.SortX CC.Base.PyList CC.Spec.OrderSpec CC.Model.Collator
+       CC.Model.PyCollator CC.Gen.CollatorSrc CC.Proofs.GenAgreeCollatorLib CC.Proofs.GenAgreeCollatorAnchored
+       CC.Proofs.GenAgreeCollatorSbv.
+Import Coq.Lists.List.ListNotations.
+Local Open Scope Z_scope.
+
+Theorem C09_gen_Payload__hidden_idxs :
+  match src_PayloadOrderCollator__hidden_idxs with
+  | Some f => forall d spec empties fmt vals svals,
+      f (pyself_of d spec empties fmt vals svals) = map Z.of_nat (collator_hidden d empties)
+  | None => True end.
+Proof. exact gen_Payload__hidden_idxs. Qed.
+Print Assumptions C09_gen_Payload__hidden_idxs.
+
+Theorem C09_gen_Payload__display_order :
+  match src_PayloadOrderCollator__display_order with
+  | Some f => forall d spec empties fmt vals svals,
+      f (pyself_of d spec empties fmt vals svals)
+      = display_result fmt (anchored_display d OPayload empties)
+                           (anchored_display_bogus d OPayload empties)
+  | None => True end.
+Proof. exact gen_Payload__display_order. Qed.
+Print Assumptions C09_gen_Payload__display_order.
+
+Theorem C09_gen_Payload_payload_order :
+  match src_PayloadOrderCollator_payload_order with
+  | Some f => forall d spec empties fmt vals svals,
+      f (pyself_of d spec empties fmt vals svals) = payload_order d empties
+  | None => True end.
+Proof. exact gen_Payload_payload_order. Qed.
+Print Assumptions C09_gen_Payload_payload_order.
+
+Theorem C09_gen_Explicit__hidden_idxs :
+  match src_ExplicitOrderCollator__hidden_idxs with
+  | Some f => forall d spec empties fmt vals svals,
+      f (pyself_of d spec empties fmt vals svals) = map Z.of_nat (collator_hidden d empties)
+  | None => True end.
+Proof. exact gen_Explicit__hidden_idxs. Qed.
+Print Assumptions C09_gen_Explicit__hidden_idxs.
+
+Theorem C09_gen_Explicit__display_order :
+  match src_ExplicitOrderCollator__display_order with
+  | Some f => forall d spec empties fmt vals svals, NoDup (d_ids d) ->
+      f (pyself_of d spec empties fmt vals svals)
+      = display_result fmt (anchored_display d (OExplicit (po_element_ids spec)) empties)
+                           (anchored_display_bogus d (OExplicit (po_element_ids spec)) empties)
+  | None => True end.
+Proof. exact gen_Explicit__display_order. Qed.
+Print Assumptions C09_gen_Explicit__display_order.
+
+Theorem C09_gen_Payload_display_order :
+  match src_PayloadOrderCollator_display_order with
+  | Some f => forall d spec empties fmt,
+      f (pydim_of d spec) (map Z.of_nat empties) fmt
+      = display_result fmt (anchored_display d OPayload empties)
+                           (anchored_display_bogus d OPayload empties)
+  | None => True end.
+Proof. exact gen_Payload_display_order. Qed.
+Print Assumptions C09_gen_Payload_display_order.
+
+Theorem C09_gen_Explicit_display_order :
+  match src_ExplicitOrderCollator_display_order with
+  | Some f => forall d spec empties fmt, NoDup (d_ids d) ->
+      f (pydim_of d spec) (map Z.of_nat empties) fmt
+      = display_result fmt (anchored_display d (OExplicit (po_element_ids spec)) empties)
+                           (anchored_display_bogus d (OExplicit (po_element_ids spec)) empties)
+  | None => True end.
+Proof. exact gen_Explicit_display_order. Qed.
+Print Assumptions C09_gen_Explicit_display_order.
+
+Theorem C09_gen_Sbv__hidden_idxs :
+  match src_SortByValueCollator__hidden_idxs with
+  | Some f => forall d spec empties fmt vals svals,
+      f (pyself_of d spec empties fmt vals svals) = map Z.of_nat (collator_hidden d empties)
+  | None => True end.
+Proof. exact gen_Sbv__hidden_idxs. Qed.
+Print Assumptions C09_gen_Sbv__hidden_idxs.
+
+Theorem C09_gen_Sbv__display_order :
+  match src_SortByValueCollator__display_order with
+  | Some f => forall d spec empties fmt vals svals,
+      f (pyself_of d spec empties fmt vals svals)
+      = display_result fmt
+          (Ok (sbv_display d (sort_of spec) vals svals empties))
+          (render_bogus (order_mapping (plain_bogus_ids d))
+                        (sbv_display d (sort_of spec) vals svals empties))
+  | None => True end.
+Proof. exact gen_Sbv__display_order. Qed.
+Print Assumptions C09_gen_Sbv__display_order.
+
+Theorem C09_gen_Sbv_display_order :
+  match src_SortByValueCollator_display_order with
+  | Some f => forall d spec vals svals empties fmt,
+      f (pydim_of d spec) vals svals (map Z.of_nat empties) fmt
+      = display_result fmt
+          (Ok (sbv_display d (sort_of spec) vals svals empties))
+          (render_bogus (order_mapping (plain_bogus_ids d))
+                        (sbv_display d (sort_of spec) vals svals empties))
+  | None => True end.
+Proof. exact gen_Sbv_display_order. Qed.
+Print Assumptions C09_gen_Sbv_display_order.
+
+End GenAgreeCollator_C09.
+(*END GenAgreeCollator_C09*)
+
+(* ---- WIRING-APPENDIX:BEGIN (generated by tools/gen_wiring_props.py; do not edit) ---- *)
+From CC Require Proofs.GenAgreeWiring_C09.
+Section Wiring_C09.
+Import Coq.Lists.List Coq.ZArith.ZArith Coq.Strings.String CC.Base.WiringExp CC.Gen.WiringSrc.
+Import ListNotations.
+Local Open Scope string_scope.
+
+Theorem C09_wiring_SecondOrderMeasures_columns_pruning_mask :
+  wsrc_SecondOrderMeasures_columns_pruning_mask = Some (WAttr (WAttr (WSelf "_cube_measures")
+      "unweighted_cube_counts") "columns_pruning_mask").
+Proof. exact Proofs.GenAgreeWiring_C09.gen_wiring_SecondOrderMeasures_columns_pruning_mask. Qed.
+Print Assumptions C09_wiring_SecondOrderMeasures_columns_pruning_mask.
+
+Theorem C09_wiring_SecondOrderMeasures_rows_pruning_mask :
+  wsrc_SecondOrderMeasures_rows_pruning_mask = Some (WAttr (WAttr (WSelf "_cube_measures")
+      "unweighted_cube_counts") "rows_pruning_mask").
+Proof. exact Proofs.GenAgreeWiring_C09.gen_wiring_SecondOrderMeasures_rows_pruning_mask. Qed.
+Print Assumptions C09_wiring_SecondOrderMeasures_rows_pruning_mask.
+
+Theorem C09_wiring_StripeMeasures_pruning_base :
+  wsrc_StripeMeasures_pruning_base = Some (WAttr (WAttr (WSelf "_cube_measures")
+      "unweighted_cube_counts") "pruning_base").
+Proof. exact Proofs.GenAgreeWiring_C09.gen_wiring_StripeMeasures_pruning_base. Qed.
+Print Assumptions C09_wiring_StripeMeasures_pruning_base.
+
+End Wiring_C09.
+(* ---- WIRING-APPENDIX:END ---- *)
